@@ -1751,5 +1751,650 @@ theorem bigintPow_topNZ (hw : w = 32 ∨ w = 64) {cap : Option Nat} {T : PowTabl
       obtain ⟨_, b, c, d⟩ := pow_spec hw hT hx (Or.inl h0) hc h1
       exact shl_topNZ (pos_of_width hw) b c (d hn) h
 
+-- ---------------------------------------------------------------- the generated tables
+theorem largePow5W32_val : toNatW 32 Gen.largePow5W32 = 5 ^ 135 := by decide +kernel
+
+theorem genPowW_32 (compact : Bool) :
+    genPowW 32 compact = { genPow compact with largePow5 := Gen.largePow5W32 } := by
+  simp [genPowW]
+
+theorem genPowW_64 (compact : Bool) : genPowW 64 compact = genPow compact := by
+  simp [genPowW]
+
+/-- The 32-bit tables satisfy what `pow` needs: `LARGE_POW5 = 5^135` (ten normalised limbs
+    `< 2^32`) and `SMALL_INT_POW5[i] = 5^i` for `i < 13`. -/
+theorem genPowW32_tablesOK (compact : Bool) : PowTablesOKW 32 (genPowW 32 compact) := by
+  rw [genPowW_32]
+  constructor
+  · show toNatW 32 Gen.largePow5W32 = 5 ^ Gen.largePow5Step
+    decide +kernel
+  · show AllLtW 32 Gen.largePow5W32
+    decide +kernel
+  · show isNormalized Gen.largePow5W32 = true
+    decide +kernel
+  · show ∀ i, i < 13 → Gen.smallIntPow5.getD i 0 = 5 ^ i
+    decide +kernel
+
+theorem genPowW64_tablesOK (compact : Bool) : PowTablesOKW 64 (genPowW 64 compact) := by
+  rw [genPowW_64]
+  constructor
+  · show toNatW 64 Gen.largePow5 = 5 ^ Gen.largePow5Step
+    decide +kernel
+  · show AllLtW 64 Gen.largePow5
+    decide +kernel
+  · show isNormalized Gen.largePow5 = true
+    decide +kernel
+  · show ∀ i, i < 27 → Gen.smallIntPow5.getD i 0 = 5 ^ i
+    decide +kernel
+
+-- ---------------------------------------------------------------- normalisation bookkeeping
+/-- value-level "normalised": empty, or the top limb is non-zero -/
+def NormOKW (w : Nat) (x : Big) : Prop := x = [] ∨ TopNZW w x
+
+theorem normalized_of_topNZ {x : Big} (hx : AllLtW w x) (h : TopNZW w x) :
+    isNormalized x = true := by
+  rw [isNormalized_iff]
+  intro hl
+  obtain ⟨ys, rfl⟩ : ∃ ys, x = ys ++ [0] := by
+    rcases List.eq_nil_or_concat x with h0 | ⟨ys, v, rfl⟩
+    · exact absurd h0 h.1
+    · rw [List.concat_eq_append, List.getLast?_concat] at hl
+      simp only [Option.some.injEq] at hl
+      subst hl; exact ⟨ys, by simp⟩
+  have h2 := h.2
+  rw [toNatW_append, toNatW_singleton] at h2
+  have := toNatW_lt (AllLtW_append.mp hx).1
+  simp only [List.length_append, List.length_cons, List.length_nil, Nat.zero_add,
+    Nat.add_sub_cancel, Nat.mul_zero, Nat.add_zero] at h2
+  omega
+
+theorem normalized_of_normOK {x : Big} (hx : AllLtW w x) (h : NormOKW w x) :
+    isNormalized x = true := by
+  rcases h with rfl | h
+  · rfl
+  · exact normalized_of_topNZ hx h
+
+theorem normOK_of_normalized {x : Big} (hn : isNormalized x = true) : NormOKW w x := by
+  by_cases h : x = []
+  · exact Or.inl h
+  · exact Or.inr (TopNZW_of_normalized hn h)
+
+theorem topNZ_of_normOK {x : Big} (h : NormOKW w x) (h0 : toNatW w x ≠ 0) : TopNZW w x := by
+  rcases h with rfl | h
+  · exact absurd rfl h0
+  · exact h
+
+theorem isNormalized_concat {ys : Big} {v : Nat} (hv : v ≠ 0) : isNormalized (ys ++ [v]) = true := by
+  rw [isNormalized_iff, List.getLast?_concat]
+  simpa using hv
+
+/-- `small_mul` by a non-zero scalar keeps a normalised vector normalised (no limb bound needed) -/
+theorem smallMul_normalized {cap : Option Nat} {x r : Big} {y : Nat}
+    (hn : isNormalized x = true) (hy0 : y ≠ 0) (h : smallMul w cap x y = some r) :
+    isNormalized r = true ∧ (x = [] → r = []) ∧ (x ≠ [] → r ≠ []) := by
+  by_cases hx0 : x = []
+  · subst hx0
+    have : r = [] := by
+      unfold smallMul at h
+      simpa [smallMulAux] using h.symm
+    subst this
+    exact ⟨rfl, fun _ => rfl, fun h => absurd rfl h⟩
+  · have ht := smallMul_topNZ (TopNZW_of_normalized (w := w) hn hx0) hy0 h
+    refine ⟨?_, fun h => absurd h hx0, fun _ => ht.1⟩
+    have h3 := smallMulAux_allLt (w := w) y x 0
+    unfold smallMul at h
+    simp only at h
+    split at h
+    · next hz =>
+      obtain ⟨rfl, _⟩ := vecTryPush_some h
+      exact isNormalized_concat hz
+    · simp only [Option.some.injEq] at h
+      subst h
+      exact normalized_of_topNZ h3 ht
+
+theorem smallMul_normOK {cap : Option Nat} {x r : Big} {y : Nat} (hn : NormOKW w x) (hy0 : y ≠ 0)
+    (h : smallMul w cap x y = some r) : NormOKW w r := by
+  rcases hn with rfl | hn
+  · left
+    unfold smallMul at h
+    simpa [smallMulAux] using h.symm
+  · exact Or.inr (smallMul_topNZ hn hy0 h)
+
+theorem smallAdd_normOK {cap : Option Nat} {x r : Big} {y : Nat} (hx : AllLtW w x)
+    (hy : y < Bw w) (hn : NormOKW w x) (h : smallAdd w cap x y = some r) : NormOKW w r := by
+  obtain ⟨h1, h2, h3, h4⟩ := smallAddFrom_core hx hy (Nat.zero_le _)
+  unfold smallAdd smallAddFrom at h
+  simp only at h
+  split at h
+  · next hz =>
+    obtain ⟨rfl, _⟩ := vecTryPush_some h
+    right
+    refine ⟨by simp, ?_⟩
+    rw [toNatW_append, toNatW_singleton, List.length_append]
+    have : Bw w ^ (List.take 0 x ++ (smallAddAux w y (List.drop 0 x)).1).length * 1 ≤
+        Bw w ^ (List.take 0 x ++ (smallAddAux w y (List.drop 0 x)).1).length *
+          (smallAddAux w y (List.drop 0 x)).2 :=
+      Nat.mul_le_mul_left _ (Nat.pos_of_ne_zero hz)
+    simp only [List.length_cons, List.length_nil, Nat.zero_add, Nat.add_sub_cancel]
+    omega
+  · next hz =>
+    simp only [ne_eq, Decidable.not_not] at hz
+    simp only [Option.some.injEq] at h
+    subst h
+    rw [hz] at h2
+    rcases hn with rfl | hn
+    · left
+      exact List.eq_nil_of_length_eq_zero (by rw [h1]; rfl)
+    · right
+      refine ⟨fun h0 => hn.1 (List.eq_nil_of_length_eq_zero (by rw [← h1, h0]; rfl)), ?_⟩
+      rw [h1]
+      have := hn.2
+      simp only [Nat.mul_zero, Nat.add_zero, Nat.pow_zero, Nat.mul_one] at h2
+      omega
+
+/-- `small_add` keeps a normalised vector normalised -/
+theorem smallAdd_normalized {cap : Option Nat} {x r : Big} {y : Nat} (hx : AllLtW w x)
+    (hy : y < Bw w) (hcap : capOk cap x.length = true) (hn : isNormalized x = true)
+    (h : smallAdd w cap x y = some r) : isNormalized r = true := by
+  have hr := (smallAddFrom_spec hx hy (Nat.zero_le _) hcap h).2.1
+  exact normalized_of_normOK hr (smallAdd_normOK hx hy (normOK_of_normalized hn) h)
+
+/-- `shl` keeps a non-empty normalised vector normalised and non-empty -/
+theorem shl_normalized (hw : 0 < w) {cap : Option Nat} {x r : Big} {n : Nat} (hx : AllLtW w x)
+    (hcap : capOk cap x.length = true) (hn : isNormalized x = true) (hx0 : x ≠ [])
+    (h : shl w cap x n = some r) : isNormalized r = true ∧ r ≠ [] := by
+  have ht := shl_topNZ hw hx hcap (TopNZW_of_normalized hn hx0) h
+  exact ⟨normalized_of_topNZ (shl_spec hw hx hcap h).2.1 ht, ht.1⟩
+
+/-- `pow` keeps a non-empty normalised vector normalised and non-empty -/
+theorem pow_normalized (hw : w = 32 ∨ w = 64) {cap : Option Nat} {T : PowTables}
+    (hT : T.compact = false → PowTablesOKW w T) {x r : Big} {e : Nat} (hx : AllLtW w x)
+    (hn : isNormalized x = true) (hx0 : x ≠ []) (hc : capOk cap x.length = true)
+    (h : pow w cap T x e = some r) : isNormalized r = true ∧ r ≠ [] := by
+  have h0 : toNatW w x ≠ 0 := (toNatW_pos_of_normalized hn hx0).ne'
+  obtain ⟨_, b, _, d⟩ := pow_spec hw hT hx (Or.inl h0) hc h
+  have ht := d (TopNZW_of_normalized hn hx0)
+  exact ⟨normalized_of_topNZ b ht, ht.1⟩
+
+/-- `Bigint::pow` keeps a non-empty normalised vector normalised and non-empty -/
+theorem bigintPow_normalized (hw : w = 32 ∨ w = 64) {cap : Option Nat} {T : PowTables}
+    (hT : T.compact = false → PowTablesOKW w T) {x r : Big} {base e : Nat}
+    (hb : base = 2 ∨ base = 5 ∨ base = 10) (hx : AllLtW w x) (hn : isNormalized x = true)
+    (hx0 : x ≠ []) (hc : capOk cap x.length = true) (h : bigintPow w cap T x base e = some r) :
+    isNormalized r = true ∧ r ≠ [] := by
+  have h0 : toNatW w x ≠ 0 := (toNatW_pos_of_normalized hn hx0).ne'
+  have ht := bigintPow_topNZ hw hT hb hx (TopNZW_of_normalized hn hx0) hc h
+  exact ⟨normalized_of_topNZ (bigintPow_spec hw hT hb hx h0 hc h).2.1 ht, ht.1⟩
+
+-- ---------------------------------------------------------------- bitLength
+theorem log2_lt_w {v : Nat} (h0 : v ≠ 0) (hv : v < Bw w) : Nat.log2 v < w := by
+  rw [Nat.log2_lt h0]; exact hv
+
+theorem clzL_eq {v : Nat} (h0 : v ≠ 0) : clzL w v = w - 1 - Nat.log2 v := by
+  simp [clzL, h0]
+
+/-- value bounds of a limb list in terms of its top limb -/
+theorem log2_toNatW_concat {ys : Big} {v : Nat} (hys : AllLtW w ys) (h0 : v ≠ 0) :
+    Nat.log2 (toNatW w (ys ++ [v])) = w * ys.length + Nat.log2 v := by
+  have hlt := toNatW_lt hys
+  have h1 := Nat.log2_self_le h0
+  have h2 := @Nat.lt_log2_self v
+  have hpos := Bwpow_pos w ys.length
+  rw [toNatW_append, toNatW_singleton]
+  have hne : toNatW w ys + Bw w ^ ys.length * v ≠ 0 := by
+    have : Bw w ^ ys.length * 1 ≤ Bw w ^ ys.length * v :=
+      Nat.mul_le_mul_left _ (Nat.pos_of_ne_zero h0)
+    omega
+  rw [Nat.log2_eq_iff hne]
+  have e1 : 2 ^ (w * ys.length + Nat.log2 v) = Bw w ^ ys.length * 2 ^ Nat.log2 v := by
+    rw [Nat.pow_add, Bwpow_eq]
+  have e2 : 2 ^ (w * ys.length + Nat.log2 v + 1) = Bw w ^ ys.length * 2 ^ (Nat.log2 v + 1) := by
+    rw [Nat.add_assoc, Nat.pow_add, Bwpow_eq]
+  rw [e1, e2]
+  have a1 := Nat.mul_le_mul_left (Bw w ^ ys.length) h1
+  have a2 : Bw w ^ ys.length * (v + 1) ≤ Bw w ^ ys.length * 2 ^ (Nat.log2 v + 1) :=
+    Nat.mul_le_mul_left _ h2
+  rw [Nat.mul_add] at a2
+  omega
+
+theorem bitLength_concat {ys : Big} {v : Nat} (h0 : v ≠ 0) (hv : v < Bw w) :
+    bitLength w (ys ++ [v]) = w * ys.length + Nat.log2 v + 1 := by
+  unfold bitLength leadingZeros
+  have := log2_lt_w h0 hv
+  simp only [List.getLast?_concat, List.length_append, List.length_cons, List.length_nil,
+    clzL_eq h0, Nat.zero_add, Nat.mul_succ]
+  generalize w * ys.length = k
+  omega
+
+theorem bitLength_spec {x : Big} (hx : AllLtW w x) (hn : isNormalized x = true) (hne : x ≠ []) :
+    bitLength w x = Nat.log2 (toNatW w x) + 1 := by
+  obtain ⟨ys, v, rfl, h0⟩ := exists_concat_of_normalized hn hne
+  rw [AllLtW_append, AllLtW_singleton] at hx
+  rw [bitLength_concat h0 hx.2, log2_toNatW_concat hx.1 h0]
+
+-- ---------------------------------------------------------------- hi64 (32-bit limbs)
+theorem any_ne_zero_eq (lo : Big) : lo.any (· != 0) = decide (toNatW w lo ≠ 0) := by
+  induction lo with
+  | nil => simp [toNatW]
+  | cons a lo ih =>
+    simp only [List.any_cons, ih, toNatW]
+    have := Bw_pos w
+    by_cases ha : a = 0
+    · subst ha
+      by_cases hl : toNatW w lo = 0
+      · simp [hl]
+      · have : Bw w * toNatW w lo ≠ 0 := Nat.mul_ne_zero (by omega) hl
+        simp [hl, this]
+    · simp [ha]
+
+/-- dividing by `Bw^m * Q` strips the low part -/
+theorem low_part_div {lo : Big} (hlo : AllLtW w lo) (T Q : Nat) :
+    (toNatW w lo + Bw w ^ lo.length * T) / (Bw w ^ lo.length * Q) = T / Q := by
+  rw [← Nat.div_div_eq_div_mul, Nat.add_mul_div_left _ _ (Bwpow_pos _ _),
+    Nat.div_eq_of_lt (toNatW_lt hlo)]
+  simp
+
+theorem low_part_mod {lo : Big} (hlo : AllLtW w lo) (T Q : Nat) :
+    (toNatW w lo + Bw w ^ lo.length * T) % (Bw w ^ lo.length * Q)
+      = toNatW w lo + Bw w ^ lo.length * (T % Q) := by
+  rw [Nat.mod_mul, Nat.add_mul_mod_self_left, Nat.mod_eq_of_lt (toNatW_lt hlo),
+    Nat.add_mul_div_left _ _ (Bwpow_pos _ _), Nat.div_eq_of_lt (toNatW_lt hlo)]
+  simp
+
+/-- `(hi as u64) << 32 | lo` for two 32-bit values -/
+theorem or32 {a b : Nat} (ha : a < 4294967296) (hb : b < 4294967296) :
+    (a * 4294967296) % B ||| b = b + 4294967296 * a ∧ b + 4294967296 * a < B := by
+  have hlt : b + 4294967296 * a < B := by unfold B; omega
+  refine ⟨?_, hlt⟩
+  rw [Nat.mod_eq_of_lt (by unfold B; omega)]
+  have e : (4294967296 : Nat) = 2 ^ 32 := by norm_num
+  rw [e] at hb ⊢
+  rw [Nat.mul_comm a, ← Nat.two_pow_add_eq_or_of_lt hb, Nat.add_comm]
+
+/-- `u64_to_hi64_1` on a non-zero value `v < 2^64` whose bit length is `L + 1` -/
+theorem hi64_one_word {v : Nat} (h0 : v ≠ 0) (hv : v < B) :
+    (64 ≤ Nat.log2 v + 1 →
+      (u64ToHi64_1 v).1 = v / 2 ^ (Nat.log2 v + 1 - 64) ∧
+      (u64ToHi64_1 v).2 = decide (v % 2 ^ (Nat.log2 v + 1 - 64) ≠ 0)) ∧
+    (Nat.log2 v + 1 < 64 →
+      (u64ToHi64_1 v).1 = v * 2 ^ (64 - (Nat.log2 v + 1)) ∧ (u64ToHi64_1 v).2 = false) := by
+  have hlog := log2_lt_64 h0 hv
+  rw [u64ToHi64_1_spec h0 hv]
+  constructor
+  · intro h
+    have : Nat.log2 v = 63 := by omega
+    rw [this]; simp [Nat.mod_one]
+  · intro h
+    rw [show 64 - (Nat.log2 v + 1) = 63 - Nat.log2 v by omega]; simp
+
+/-- the arithmetic content of `hi64` (32-bit limbs) on a list with at least three limbs -/
+theorem hi64_general32 {lo : Big} {r0 r1 r2 : Nat} (hlo : AllLtW 32 lo) (h0 : r0 ≠ 0)
+    (hr0 : r0 < Bw 32) (hr1 : r1 < Bw 32) (hr2 : r2 < Bw 32) :
+    bitLength 32 (lo ++ [r2, r1, r0]) = 32 * lo.length + 64 + Nat.log2 r0 + 1 ∧
+    (u32ToHi64_3 r0 r1 r2).1
+      = toNatW 32 (lo ++ [r2, r1, r0]) / 2 ^ (bitLength 32 (lo ++ [r2, r1, r0]) - 64) ∧
+    ((u32ToHi64_3 r0 r1 r2).2 || lo.any (· != 0)) =
+      decide (toNatW 32 (lo ++ [r2, r1, r0]) % 2 ^ (bitLength 32 (lo ++ [r2, r1, r0]) - 64) ≠ 0) := by
+  have hbl : bitLength 32 (lo ++ [r2, r1, r0]) = 32 * lo.length + 64 + Nat.log2 r0 + 1 := by
+    have : lo ++ [r2, r1, r0] = (lo ++ [r2, r1]) ++ [r0] := by simp
+    rw [this, bitLength_concat h0 hr0]
+    simp only [List.length_append, List.length_cons, List.length_nil]; omega
+  rw [Bw_32] at hr0 hr1 hr2
+  obtain ⟨o1, o2⟩ := or32 hr1 hr2
+  have hr0B : r0 < B := by unfold B; omega
+  obtain ⟨s1, s2⟩ := u64ToHi64_2_spec h0 hr0B o2
+  have hu : u32ToHi64_3 r0 r1 r2 = u64ToHi64_2 r0 (r2 + 4294967296 * r1) := by
+    unfold u32ToHi64_3; rw [o1]
+  have hpow : 2 ^ (bitLength 32 (lo ++ [r2, r1, r0]) - 64)
+      = Bw 32 ^ lo.length * 2 ^ (Nat.log2 r0 + 1) := by
+    rw [hbl, Bwpow_eq, ← Nat.pow_add]; congr 1; omega
+  have hval : toNatW 32 (lo ++ [r2, r1, r0])
+      = toNatW 32 lo + Bw 32 ^ lo.length * (r2 + 4294967296 * r1 + B * r0) := by
+    have hT : toNatW 32 [r2, r1, r0] = r2 + 4294967296 * r1 + B * r0 := by
+      simp only [toNatW, Bw_32, B]; omega
+    rw [toNatW_append, hT]
+  refine ⟨hbl, ?_, ?_⟩
+  · rw [hpow, hval, low_part_div hlo, hu, s1]
+  · rw [hpow, hval, low_part_mod hlo, hu, s2, any_ne_zero_eq (w := 32)]
+    have hpos := Bwpow_pos 32 lo.length
+    rw [Bool.eq_iff_iff]
+    simp only [Bool.or_eq_true, decide_eq_true_eq]
+    constructor
+    · rintro (h | h)
+      · have := Nat.mul_ne_zero (Nat.ne_of_gt hpos) h; omega
+      · omega
+    · intro h
+      by_cases ha : (r2 + 4294967296 * r1 + B * r0) % 2 ^ (Nat.log2 r0 + 1) = 0
+      · right; rw [ha] at h; simpa using h
+      · left; exact ha
+
+theorem hi64_rev_spec32 : ∀ (l : List Nat), AllLtW 32 l → l.head? ≠ some 0 → l ≠ [] →
+    (64 ≤ bitLength 32 l.reverse →
+      (hi64 32 l.reverse).1 = toNatW 32 l.reverse / 2 ^ (bitLength 32 l.reverse - 64) ∧
+      (hi64 32 l.reverse).2
+        = decide (toNatW 32 l.reverse % 2 ^ (bitLength 32 l.reverse - 64) ≠ 0)) ∧
+    (bitLength 32 l.reverse < 64 →
+      (hi64 32 l.reverse).1 = toNatW 32 l.reverse * 2 ^ (64 - bitLength 32 l.reverse) ∧
+      (hi64 32 l.reverse).2 = false) := by
+  intro l hl hh hne
+  match l, hl, hh, hne with
+  | [], _, _, hne => exact absurd rfl hne
+  | [r0], hl, hh, _ =>
+    have h0 : r0 ≠ 0 := by simpa using hh
+    have hr0 : r0 < Bw 32 := AllLtW_singleton.mp hl
+    have hr0B : r0 < B := by rw [Bw_32] at hr0; unfold B; omega
+    have hbl : bitLength 32 [r0] = Nat.log2 r0 + 1 := by
+      have := bitLength_concat (w := 32) (ys := []) h0 hr0
+      simpa using this
+    have hhi : hi64 32 [r0] = u64ToHi64_1 r0 := by
+      simp only [hi64, if_true, List.reverse_cons, List.reverse_nil, List.nil_append, u32ToHi64_1]
+    simp only [List.reverse_cons, List.reverse_nil, List.nil_append, hbl, hhi, toNatW_singleton]
+    exact hi64_one_word h0 hr0B
+  | [r0, r1], hl, hh, _ =>
+    have h0 : r0 ≠ 0 := by simpa using hh
+    rw [AllLtW_cons, AllLtW_singleton] at hl
+    obtain ⟨hr0, hr1⟩ := hl
+    have hx : AllLtW 32 [r1, r0] := by
+      rw [AllLtW_cons, AllLtW_singleton]; exact ⟨hr1, hr0⟩
+    have hbl := bitLength_spec (w := 32) (x := [r1, r0]) hx
+      (by rw [isNormalized_iff]; simpa using h0) (by simp)
+    rw [Bw_32] at hr0 hr1
+    obtain ⟨o1, o2⟩ := or32 hr0 hr1
+    have hv0 : r1 + 4294967296 * r0 ≠ 0 := by omega
+    have hval : toNatW 32 [r1, r0] = r1 + 4294967296 * r0 := by
+      simp only [toNatW, Bw_32]; omega
+    have hhi : hi64 32 [r1, r0] = u64ToHi64_1 (r1 + 4294967296 * r0) := by
+      simp only [hi64, if_true, List.reverse_cons, List.reverse_nil, List.nil_append,
+        List.cons_append, u32ToHi64_2, o1]
+    simp only [List.reverse_cons, List.reverse_nil, List.nil_append, List.cons_append]
+    rw [hbl, hhi, hval]
+    exact hi64_one_word hv0 o2
+  | r0 :: r1 :: r2 :: rest, hl, hh, _ =>
+    have h0 : r0 ≠ 0 := by simpa using hh
+    rw [AllLtW_cons, AllLtW_cons, AllLtW_cons] at hl
+    have hlo : AllLtW 32 rest.reverse := AllLtW_reverse.mpr hl.2.2.2
+    obtain ⟨g1, g2, g3⟩ := hi64_general32 hlo h0 hl.1 hl.2.1 hl.2.2.1
+    have hx : (r0 :: r1 :: r2 :: rest).reverse = rest.reverse ++ [r2, r1, r0] := by
+      simp
+    have hhi : hi64 32 (rest.reverse ++ [r2, r1, r0]) =
+        ((u32ToHi64_3 r0 r1 r2).1, (u32ToHi64_3 r0 r1 r2).2 || (rest.reverse).any (· != 0)) := by
+      unfold hi64
+      simp only [if_true]
+      rw [← hx, List.reverse_reverse]
+      simp only [nonzero, List.length_reverse, List.length_cons]
+      congr 2
+      rw [hx, List.take_left' (by simp)]
+    rw [hx, hhi]
+    exact ⟨fun _ => ⟨g2, g3⟩, fun h => by omega⟩
+
+theorem hi64_spec32 {x : Big} (hx : AllLtW 32 x) (hn : isNormalized x = true) (hne : x ≠ []) :
+    (64 ≤ bitLength 32 x →
+      (hi64 32 x).1 = toNatW 32 x / 2 ^ (bitLength 32 x - 64) ∧
+      (hi64 32 x).2 = decide (toNatW 32 x % 2 ^ (bitLength 32 x - 64) ≠ 0)) ∧
+    (bitLength 32 x < 64 →
+      (hi64 32 x).1 = toNatW 32 x * 2 ^ (64 - bitLength 32 x) ∧ (hi64 32 x).2 = false) := by
+  have := hi64_rev_spec32 x.reverse (AllLtW_reverse.mpr hx)
+    (by rw [List.head?_reverse]; exact isNormalized_iff.mp hn) (by simpa using hne)
+  rwa [List.reverse_reverse] at this
+
+/-- the 64-bit value returned by `hi64` has its top bit set (and fits 64 bits) -/
+theorem hi64_top_bit32 {x : Big} (hx : AllLtW 32 x) (hn : isNormalized x = true) (hne : x ≠ []) :
+    2 ^ 63 ≤ (hi64 32 x).1 ∧ (hi64 32 x).1 < 2 ^ 64 := by
+  have hbl := bitLength_spec hx hn hne
+  have hN : toNatW 32 x ≠ 0 := (toNatW_pos_of_normalized hn hne).ne'
+  have h1 := Nat.log2_self_le hN
+  have h2 := @Nat.lt_log2_self (toNatW 32 x)
+  obtain ⟨s1, s2⟩ := hi64_spec32 hx hn hne
+  by_cases hge : 64 ≤ bitLength 32 x
+  · rw [(s1 hge).1]
+    have e1 : (2 : Nat) ^ 63 * 2 ^ (bitLength 32 x - 64) = 2 ^ Nat.log2 (toNatW 32 x) := by
+      rw [← Nat.pow_add]; congr 1; omega
+    have e2 : (2 : Nat) ^ 64 * 2 ^ (bitLength 32 x - 64) = 2 ^ (Nat.log2 (toNatW 32 x) + 1) := by
+      rw [← Nat.pow_add]; congr 1; omega
+    constructor
+    · rw [Nat.le_div_iff_mul_le (Nat.two_pow_pos _), e1]; exact h1
+    · rw [Nat.div_lt_iff_lt_mul (Nat.two_pow_pos _), e2]; exact h2
+  · have hlt : bitLength 32 x < 64 := by omega
+    rw [(s2 hlt).1]
+    have e1 : (2 : Nat) ^ 63 = 2 ^ Nat.log2 (toNatW 32 x) * 2 ^ (64 - bitLength 32 x) := by
+      rw [← Nat.pow_add]; congr 1; omega
+    have e2 : (2 : Nat) ^ 64 = 2 ^ (Nat.log2 (toNatW 32 x) + 1) * 2 ^ (64 - bitLength 32 x) := by
+      rw [← Nat.pow_add]; congr 1; omega
+    rw [e1, e2]
+    exact ⟨Nat.mul_le_mul_right _ h1, Nat.mul_lt_mul_of_pos_right h2 (Nat.two_pow_pos _)⟩
+
+-- ---------------------------------------------------------------- w = 64 is the old model (values)
+theorem toNatW_64 (x : Big) : toNatW 64 x = toNat x := by
+  induction x with
+  | nil => rfl
+  | cons a x ih => simp only [toNatW, toNat, ih, Bw_64]
+
+theorem AllLtW_64 {x : Big} : AllLtW 64 x ↔ AllLt x := by
+  unfold AllLtW AllLt; rw [Bw_64]
+
+theorem bitLength_64 (x : Big) : bitLength 64 x = MinLex.bitLength x := by
+  unfold bitLength MinLex.bitLength leadingZeros MinLex.leadingZeros
+  cases x.getLast? with
+  | none => rfl
+  | some v => simp only [clzL, clz64]
+
+theorem hi64_of_ne (hw : w ≠ 32) (x : Big) : hi64 w x = MinLex.hi64 x := by
+  unfold hi64; simp [hw]
+
+theorem hi64_spec64 {x : Big} (hx : AllLtW 64 x) (hn : isNormalized x = true) (hne : x ≠ []) :
+    (64 ≤ bitLength 64 x →
+      (hi64 64 x).1 = toNatW 64 x / 2 ^ (bitLength 64 x - 64) ∧
+      (hi64 64 x).2 = decide (toNatW 64 x % 2 ^ (bitLength 64 x - 64) ≠ 0)) ∧
+    (bitLength 64 x < 64 →
+      (hi64 64 x).1 = toNatW 64 x * 2 ^ (64 - bitLength 64 x) ∧ (hi64 64 x).2 = false) := by
+  rw [hi64_of_ne (by decide), toNatW_64, bitLength_64]
+  exact hi64_spec (AllLtW_64.mp hx) hn hne
+
+theorem hi64_top_bit64 {x : Big} (hx : AllLtW 64 x) (hn : isNormalized x = true) (hne : x ≠ []) :
+    2 ^ 63 ≤ (hi64 64 x).1 ∧ (hi64 64 x).1 < 2 ^ 64 := by
+  rw [hi64_of_ne (by decide)]
+  exact hi64_top_bit (AllLtW_64.mp hx) hn hne
+
+-- ---------------------------------------------------------------- pow on the empty vector
+/-- `pow` with an arbitrary description `V` of the value after the large-power stage -/
+theorem pow_spec_gen (hw : w = 32 ∨ w = 64) {cap : Option Nat} {T : PowTables}
+    (hT : T.compact = false → PowTablesOKW w T) {x r : Big} {e V : Nat}
+    (hstage : ∀ x1 e1, (if T.compact then some (x, e) else powLargeLoop w cap T (e + 1) x e)
+        = some (x1, e1) → toNatW w x1 * 5 ^ e1 = V ∧ AllLtW w x1 ∧ capOk cap x1.length = true)
+    (h : pow w cap T x e = some r) :
+    toNatW w r = V ∧ AllLtW w r ∧ capOk cap r.length = true := by
+  unfold pow at h
+  simp only at h
+  split at h
+  · simp at h
+  · next x1 e1 h1 =>
+    obtain ⟨a1, a2, a3⟩ := hstage x1 e1 h1
+    split at h
+    · simp at h
+    · next x2 e2 h2 =>
+      obtain ⟨b1, b2, b3, b4, b5⟩ := powSmallLoop_spec hw _ a2 a3 h2
+      have he2 : e2 < powStep w := b5 (by omega)
+      split at h
+      · next hne =>
+        rw [intPow5_eq hw hT he2] at h
+        obtain ⟨c1, c2, c3, _⟩ := smallMul_spec b2 (five_pow_lt hw (by omega)) b3 h
+        exact ⟨by rw [c1, b1, a1], c2, c3⟩
+      · next hz =>
+        simp only [ne_eq, Decidable.not_not] at hz
+        simp only [Option.some.injEq] at h
+        subst h
+        subst hz
+        exact ⟨by rw [← a1, ← b1]; simp, b2, b3⟩
+
+theorem largeMul_nil_left {cap : Option Nat} {P r : Big} (hlen : P.length ≠ 1)
+    (h : largeMul w cap [] P = some r) : r = normalize P ∧ capOk cap P.length = true := by
+  unfold largeMul at h
+  split at h
+  · simp at hlen
+  · unfold longMul at h
+    split at h
+    · simp at h
+    · next z0 h0 =>
+      obtain ⟨rfl, hc⟩ := vecTryFrom_some h0
+      simp only [Option.some.injEq] at h
+      exact ⟨h.symm, hc⟩
+
+/-- What `pow` computes on the EMPTY vector (value 0) in a non-compact build once `e` reaches the
+    large-power step: the first `large_mul` replaces the empty vector by `LARGE_POW5`, so the
+    result is `5^e` instead of `0`. -/
+theorem pow_empty_large (hw : w = 32 ∨ w = 64) {cap : Option Nat} {T : PowTables}
+    (hT : PowTablesOKW w T)
+    (hcm : T.compact = false) (hlen : T.largePow5.length ≠ 1) (hs : T.largePow5Step ≠ 0)
+    {e : Nat} {r : Big} (he : T.largePow5Step ≤ e) (h : pow w cap T [] e = some r) :
+    toNatW w r = 5 ^ e ∧ AllLtW w r ∧ capOk cap r.length = true := by
+  refine pow_spec_gen hw (fun _ => hT) ?_ h
+  intro x1 e1 h1
+  rw [hcm] at h1
+  simp only [Bool.false_eq_true, if_false] at h1
+  have hcond : T.largePow5Step ≠ 0 ∧ e ≥ T.largePow5Step := ⟨hs, he⟩
+  rw [powLargeLoop, if_pos hcond] at h1
+  split at h1
+  · simp at h1
+  · next x' hx' =>
+    obtain ⟨rfl, hc⟩ := largeMul_nil_left hlen hx'
+    have hv : toNatW w (normalize T.largePow5) = 5 ^ T.largePow5Step := by
+      rw [normalize_toNatW, hT.large_val]
+    have hnz : toNatW w (normalize T.largePow5) ≠ 0 := by
+      rw [hv]; exact (Nat.pow_pos (by omega)).ne'
+    obtain ⟨a, b, _, d, _⟩ := powLargeLoop_spec (pos_of_width hw) hT _
+      (normalize_allLtW hT.large_lt) hnz (normalize_capOk hc) h1
+    refine ⟨?_, b, d⟩
+    rw [a, hv, ← Nat.pow_add]; congr 1; omega
+
+-- ---------------------------------------------------------------- heap back-end never fails
+theorem smallAddFrom_heap (x : Big) (y s : Nat) : ∃ r, smallAddFrom w none x y s = some r := by
+  unfold smallAddFrom vecTryPush
+  simp only [capOk_none, if_true]
+  split <;> exact ⟨_, rfl⟩
+
+theorem smallMul_heap (x : Big) (y : Nat) : ∃ r, smallMul w none x y = some r := by
+  unfold smallMul vecTryPush
+  simp only [capOk_none, if_true]
+  split <;> exact ⟨_, rfl⟩
+
+theorem largeAddFrom_heap (x y : Big) (s : Nat) : ∃ r, largeAddFrom w none x y s = some r := by
+  unfold largeAddFrom vecTryResize
+  simp only [capOk_none, if_true]
+  split
+  · next h => split at h <;> simp at h
+  · split
+    · exact smallAddFrom_heap _ _ _
+    · exact ⟨_, rfl⟩
+
+theorem longMulLoop_heap (x : Big) : ∀ (ys : List Nat) (i : Nat) (z : Big),
+    ∃ r, longMulLoop w none x ys i z = some r := by
+  intro ys
+  induction ys with
+  | nil => intro i z; exact ⟨z, rfl⟩
+  | cons yi ys ih =>
+    intro i z
+    simp only [longMulLoop, vecTryFrom, vecTryExtend, capOk_none, if_true, List.nil_append]
+    split
+    · obtain ⟨zi, hzi⟩ := smallMul_heap (w := w) x yi
+      rw [hzi]
+      obtain ⟨z', hz'⟩ := largeAddFrom_heap (w := w) z zi i
+      simp only [hz']
+      exact ih _ _
+    · exact ih _ _
+
+theorem longMul_heap (x y : Big) : ∃ r, longMul w none x y = some r := by
+  unfold longMul
+  simp only [vecTryFrom, vecTryExtend, capOk_none, if_true, List.nil_append]
+  cases y with
+  | nil => exact ⟨_, rfl⟩
+  | cons y0 ys =>
+    obtain ⟨z1, hz1⟩ := smallMul_heap (w := w) x y0
+    simp only [hz1]
+    obtain ⟨z, hz⟩ := longMulLoop_heap (w := w) x ys 1 z1
+    simp only [hz]
+    exact ⟨_, rfl⟩
+
+theorem largeMul_heap (x y : Big) : ∃ r, largeMul w none x y = some r := by
+  unfold largeMul
+  split
+  · exact smallMul_heap _ _
+  · exact longMul_heap _ _
+
+theorem shlBits_heap (x : Big) (n : Nat) : ∃ r, shlBits w none x n = some r := by
+  unfold shlBits vecTryPush
+  simp only [capOk_none, if_true]
+  split <;> exact ⟨_, rfl⟩
+
+theorem shl_heap (x : Big) (n : Nat) : ∃ r, shl w none x n = some r := by
+  unfold shl
+  simp only
+  split
+  · next h =>
+    split at h
+    · obtain ⟨r, hr⟩ := shlBits_heap (w := w) x (n % w); rw [hr] at h; simp at h
+    · simp at h
+  · split
+    · exact shlLimbs_heap _ _
+    · exact ⟨_, rfl⟩
+
+theorem powLargeLoop_heap (T : PowTables) : ∀ (fuel : Nat) (x : Big) (e : Nat),
+    ∃ r, powLargeLoop w none T fuel x e = some r := by
+  intro fuel
+  induction fuel with
+  | zero => intro x e; exact ⟨_, rfl⟩
+  | succ fuel ih =>
+    intro x e
+    simp only [powLargeLoop]
+    split
+    · obtain ⟨x', hx'⟩ := largeMul_heap (w := w) x T.largePow5
+      simp only [hx']
+      exact ih _ _
+    · exact ⟨_, rfl⟩
+
+theorem powSmallLoop_heap : ∀ (fuel : Nat) (x : Big) (e : Nat),
+    ∃ r, powSmallLoop w none fuel x e = some r := by
+  intro fuel
+  induction fuel with
+  | zero => intro x e; exact ⟨_, rfl⟩
+  | succ fuel ih =>
+    intro x e
+    simp only [powSmallLoop]
+    split
+    · obtain ⟨x', hx'⟩ := smallMul_heap (w := w) x (5 ^ powStep w)
+      simp only [hx']
+      exact ih _ _
+    · exact ⟨_, rfl⟩
+
+theorem pow_heap_total (T : PowTables) (x : Big) (e : Nat) : ∃ r, pow w none T x e = some r := by
+  unfold pow
+  simp only
+  have h1 : ∃ p, (if T.compact then some (x, e) else powLargeLoop w none T (e + 1) x e) = some p := by
+    split
+    · exact ⟨_, rfl⟩
+    · exact powLargeLoop_heap T _ _ _
+  obtain ⟨⟨x1, e1⟩, h1⟩ := h1
+  rw [h1]
+  simp only
+  obtain ⟨⟨x2, e2⟩, h2⟩ := powSmallLoop_heap (w := w) (e1 + 1) x1 e1
+  rw [h2]
+  simp only
+  split
+  · exact smallMul_heap _ _
+  · exact ⟨_, rfl⟩
+
+theorem bigintPow_heap_total (T : PowTables) (x : Big) (base e : Nat) :
+    ∃ r, bigintPow w none T x base e = some r := by
+  unfold bigintPow
+  have h1 : ∃ x1, (if base % 5 = 0 then pow w none T x e else some x) = some x1 := by
+    split
+    · exact pow_heap_total T x e
+    · exact ⟨_, rfl⟩
+  obtain ⟨x1, h1⟩ := h1
+  rw [h1]
+  simp only
+  split
+  · exact shl_heap _ _
+  · exact ⟨_, rfl⟩
+
 end W
 end MinLex
